@@ -88,23 +88,6 @@ Definition run_line (m : mode) (line : list N) : list N :=
                     ++ [ch_space] ++ show_bool (slave_is_single_device n)
                     ++ [ch_space] ++ show_bool (slave_is_reserved n)
         | None => err "dec" end
-      else if is h "ACC" then
-        match parse_list (fun e : list N =>
-                 match e with
-                 | [115] => Some (AConn SetupService)     (* s *)
-                 | [114] => Some (AConn SetupReject)      (* r *)
-                 | 101 :: 58 :: k => option_map (fun k => AConn (SetupErr k)) (parse_kind k)
-                 | [97] => Some AAbort                    (* a *)
-                 | _ => None end) a with
-        | Some evs =>
-            let '(l, r) := serve evs 0 in
-            show_words l ++ [ch_space] ++
-            match r with
-            | SrvErr k => s2l "E:" ++ show_kind k
-            | SrvAborted => s2l "ABORTED"
-            | SrvListening => s2l "LISTENING"
-            end
-        | None => err "acc" end
       else err "cmd2"
   | h :: pr :: rest =>
       if is h "CLI" then
@@ -115,6 +98,33 @@ Definition run_line (m : mode) (line : list N) : list N :=
             | None => err "slave"
             end
         | _, _ => err "cli"
+        end
+      else if is h "ACCEPT" then
+        match parse_proto pr, rest with
+        | Some p, [g; b; evs] =>
+            match parse_hex g, parse_hex b with
+            | Some good, Some bad =>
+                match parse_list (fun e : list N =>
+                         match e with
+                         | [115] => Some (AConn (SetupService [RData good; REof]))   (* s *)
+                         | [98] => Some (AConn (SetupService [RData bad]))           (* b *)
+                         | [114] => Some (AConn SetupReject)                         (* r *)
+                         | 101 :: 58 :: k => option_map (fun k => AConn (SetupErr k)) (parse_kind k)
+                         | [97] => Some AAbort                                       (* a *)
+                         | _ => None end) evs with
+                | Some es =>
+                    let '(conns, r) := serve es in
+                    s2l "served=" ++ show_dec (len conns) ++ s2l " reports=" ++ show_dec (serve_reports p m conns) ++ [ch_space] ++
+                    match r with
+                    | SrvErr k => s2l "E:" ++ show_kind k
+                    | SrvAborted => s2l "ABORTED"
+                    | SrvListening => s2l "LISTENING"
+                    end
+                | None => err "acc"
+                end
+            | _, _ => err "acchex"
+            end
+        | _, _ => err "accept"
         end
       else if is h "SRV" then
         match parse_proto pr, rest with
